@@ -186,10 +186,55 @@ static void run_reconfigured() {
     vf::space("live solver objects reconfigured through prm.maxiter (raised from 1, lowered from n+2) vs fresh objects: n in {5,8} x {symmetric, non-symmetric} x {cg, bicgstab, bicgstabl L=1,2, gmres l/r M=2,4,30, fgmres, lgmres, idrs s=1,3, richardson}");
 }
 
+// ------------------------------------------------------------------------------------------------------------------
+// BiCGStab(L) with reliable updates (prm.delta > 0): the correction accumulated since the last update is flushed into x and the
+// residual is recomputed from x; in exact arithmetic the iterates are those of delta = 0.  Right (default) and left side, a real
+// preconditioner (SPAI-0), non-zero initial guess.
+#include <amgcl/relaxation/spai0.hpp>
+#include <amgcl/relaxation/as_preconditioner.hpp>
+static void run_reliable_updates() {
+    typedef relaxation::as_preconditioner<RB, relaxation::spai0> PC;
+    typedef solver::bicgstabl<RB> SL;
+    for (int n : {8, 14}) for (int sym = 0; sym < 2; ++sym) {
+        std::string key = vf::KS() << "relupd|" << n << "|" << (sym ? "sym" : "nonsym");
+        if (!vf::take([&]{ return key; })) continue;
+        RSys sy = reconf_system(n, sym);
+        auto At = std::make_tuple((size_t)sy.n, sy.ptr, sy.col, sy.val);
+        PC P(At);
+        vf::nontrivial(vf::hstr(key));
+        long double fn = 0; for (double v : sy.f) fn += (long double)v * v; fn = sqrtl(fn);
+        for (int L : {1, 2, 4}) for (int side = 0; side < 2; ++side) for (double delta : {1e-2, 1e-1, 0.5}) {
+            bool bad = false;
+            for (int k = L; k <= 3 * n && !bad; k += L) {
+                std::vector<double> x0 = sy.x0, xd = sy.x0; size_t i0, id; double r0, rd;
+                SL::params p; p.L = L; p.maxiter = k; p.tol = 0; p.pside = side ? preconditioner::side::left : preconditioner::side::right;
+                try {
+                    { SL s(sy.n, p); std::tie(i0, r0) = s(P.system_matrix(), P, sy.f, x0); }
+                    p.delta = delta;
+                    { SL s(sy.n, p); std::tie(id, rd) = s(P.system_matrix(), P, sy.f, xd); }
+                } catch (const std::exception &) { vf::count("relupd_breakdown_exceptions"); break; }
+                vf::count("reliable_update_pairs");
+                long double tr = 0, d = 0, xs = 0;
+                for (int i = 0; i < n; ++i) { long double a = sy.f[i]; for (auto j = sy.ptr[i]; j < sy.ptr[i + 1]; ++j) a -= (long double)sy.val[j] * xd[sy.col[j]]; tr += a * a; d = std::max<long double>(d, fabsl((long double)xd[i] - x0[i])); xs = std::max<long double>(xs, fabsl((long double)x0[i])); }
+                tr = sqrtl(tr) / fn;
+                // both runs are rounding perturbations of the same recurrence; far from breakdown they agree to many digits.  Judged only
+                // while the delta = 0 residual is above 1e-9 (below that the two runs are dominated by different rounding histories)
+                if (r0 > 1e-9 && d > 1e-6 * std::max<long double>(1, xs)) { vf::fail("bicgstabl.reliable_update.iterate", key, vf::KS() << "L=" << L << " side=" << (side ? "left" : "right") << " delta=" << delta << " maxiter=" << k << ": max |x_k(delta) - x_k(0)| = " << (double)d << " (|x| " << (double)xs << "), residuals " << rd << " vs " << r0 << ", true residual of the delta run " << (double)tr); bad = true; }
+                // right side: the reported value is the relative residual of x itself.  Left side: it is the residual of the
+                // preconditioned system (by design), so it is compared with the delta = 0 run's reported value instead
+                if (!bad && side == 1) { if (r0 > 1e-9 && std::abs(rd - r0) > 1e-6 * std::max(r0, 1e-9)) { vf::fail("bicgstabl.reliable_update.reported_residual_left", key, vf::KS() << "L=" << L << " side=left delta=" << delta << " maxiter=" << k << ": reported " << rd << " vs " << r0 << " with delta=0"); bad = true; } }
+                else if (!bad && fabsl((long double)rd - tr) > 1e-8L + 1e-6L * tr) { vf::fail("bicgstabl.reliable_update.reported_residual", key, vf::KS() << "L=" << L << " side=" << (side ? "left" : "right") << " delta=" << delta << " maxiter=" << k << ": reported " << rd << " true " << (double)tr); bad = true; }
+            }
+        }
+    }
+    vf::space("BiCGStab(L) reliable updates: n in {8,14} x {symmetric, non-symmetric} x L {1,2,4} x side {right,left} x delta {0.01,0.1,0.5} x maxiter = L,2L,..,3n: iterates vs delta = 0, reported vs true residual");
+}
+
 int main(int argc, char **argv) {
     vf::init(argc, argv, "C05");
     vf::sample_str("stagnation case: cyclic shift n=5 (A e_j = e_{j+1}), f = e_1, x0 = 0, identity preconditioner, GMRES(5): the residual stays 1 for 4 steps (H(j,j) = 0 exactly) and the system is solved at step 5");
     if (vf::section("stag")) { run<double>("double"); run<std::complex<double>>("cdouble"); }
     if (vf::section("reconf")) run_reconfigured();
+    if (vf::section("relupd")) run_reliable_updates();
     return vf::finish();
 }
